@@ -583,7 +583,7 @@ def init_list_table(decl, enums):
     return out
 
 
-def version_literals(decl):
+def version_literals(decl, fetch=None):
     """string literals compared with != in the condition that guards the version check"""
     lits = []
     def walk(n):
@@ -594,6 +594,25 @@ def version_literals(decl):
         for c in n.get("inner", []) or []:
             walk(c)
     walk(body_of(decl))
+    if not lits and fetch is not None:
+        # the comparison may have been moved into file-scope helper functions: follow the calls, one level at a time
+        seen, todo = set(), [body_of(decl)]
+        while todo and not lits:
+            names = []
+            def calls(n):
+                if n.get("kind") == "DeclRefExpr" and (n.get("referencedDecl") or {}).get("kind") == "FunctionDecl":
+                    nm = n["referencedDecl"].get("name")
+                    if nm and nm not in seen:
+                        seen.add(nm); names.append(nm)
+                for c in n.get("inner", []) or []:
+                    calls(c)
+            for b in todo:
+                calls(b)
+            todo = []
+            for nm in names:
+                for d in fetch(nm):
+                    if d.get("kind") == "FunctionDecl" and d.get("name") == nm and body_of(d) is not None:
+                        walk(body_of(d)); todo.append(body_of(d))
     return lits
 
 
@@ -743,7 +762,7 @@ def main():
                     chain = init_list_table(d, senums)
                 if not chain:
                     failed.append("Parser::parseRequestHeaders (no method-token chain or table found)")
-                vers = version_literals(d)
+                vers = version_literals(d, lambda nm: clang_ast(repo, "parser.cpp", nm, exp))
                 tab.append("/-- the token chain of `Parser::parseRequestHeaders`, in order -/")
                 tab.append("def methodTokens : List (List UInt8 × Int) :=\n  [" + ",\n   ".join("(%s, %d)" % (lean_bytes(l), v) for l, v in chain) + "]")
                 tab.append("/-- the accepted protocol versions -/")
